@@ -16,7 +16,7 @@ import gen
 from common import I, ModelRaise, exc_kind, f2h
 
 RULE = ("all ten shape classes: convex vertex sets from gen.convex_solid (always offset 0.5..10 diameters), "
-        "Polyhedron copies of them and extruded L/star prisms, c19_polygon (convex / star / comb / L cycles, 3..24 "
+        "Polyhedron copies of them and extruded L/star prisms with fan-triangulated caps, c19_polygon (convex / star / comb / L cycles, 3..24 "
         "vertices, both orientations, default / explicit / opposing normal, flat or in a random plane, offset "
         "0.5..10 diameters, scale 1e-2..1e2), c19_curved (radii log-uniform 1e-3..1e3 incl. near ties, centres with "
         "distinct non-zero components); every GSD type string plus missing-key and unknown-type variants; random "
@@ -60,6 +60,24 @@ SAFE_ATTRS = ["vertices", "centroid", "center", "area", "perimeter", "volume", "
 def shapes():
     import coxeter
     return coxeter.shapes
+
+
+class ImplRaise(Exception):
+    """the implementation raised where the property says it returns (-> a failure, never a crash)"""
+
+    def __init__(self, what, exc):
+        super().__init__(what)
+        self.what = what
+        self.exc = exc
+
+
+def impl(what, fn, *a, **k):
+    try:
+        with warnings.catch_warnings():
+            warnings.simplefilter("ignore")
+            return fn(*a, **k)
+    except Exception as e:  # noqa: BLE001
+        raise ImplRaise(what, e)
 
 
 # --------------------------------------------------------------------------- wire format
@@ -307,6 +325,8 @@ def build(case):
     if c == "ConvexSpheropolygon":
         return sh.ConvexSpheropolygon(v, case["radii"][0], normal=case.get("normal"))
     if c == "Polyhedron":
+        if case.get("faces_np"):
+            return sh.Polyhedron(v, [np.array(f, dtype=np.int32) for f in case["faces"]])
         return sh.Polyhedron(v, [list(f) for f in case["faces"]])
     if c == "ConvexPolyhedron":
         return sh.ConvexPolyhedron(v)
@@ -375,6 +395,10 @@ def cycle_convexity(v):
 # --------------------------------------------------------------------------- generators (new, C19 only)
 
 
+def _cross2(a, b):
+    return float(a[0] * b[1] - a[1] * b[0])
+
+
 def c19_cycle(rng, kind):
     """a simple cycle around the origin in the plane, counter-clockwise, O(1) size"""
     if kind == "convex":
@@ -391,7 +415,8 @@ def c19_cycle(rng, kind):
     if kind == "star":
         k = int(rng.integers(3, 9))
         t = 2 * np.pi * np.arange(2 * k) / (2 * k) + rng.uniform(0, 1)
-        r = np.where(np.arange(2 * k) % 2 == 0, 1.0, rng.uniform(0.25, 0.6))
+        # inner radius below the chord of neighbouring tips, so that every inner vertex is reflex
+        r = np.where(np.arange(2 * k) % 2 == 0, 1.0, rng.uniform(0.2, 0.75 * np.cos(np.pi / k)))
         return np.c_[r * np.cos(t), r * np.sin(t)]
     if kind == "comb":
         k = int(rng.integers(2, 6))
@@ -402,7 +427,7 @@ def c19_cycle(rng, kind):
         # drop collinear interior points of the base line (keep turning points only)
         p = np.array(pts)
         keep = [i for i in range(len(p))
-                if abs(np.cross(p[i] - p[i - 1], p[(i + 1) % len(p)] - p[i])) > 1e-9]
+                if abs(_cross2(p[i] - p[i - 1], p[(i + 1) % len(p)] - p[i])) > 1e-9]
         p = p[keep]
         p = p[::-1]  # built clockwise; make it counter-clockwise
         return (p - p.mean(axis=0)) / k
@@ -452,15 +477,24 @@ def c19_curved(rng, k):
 
 
 def c19_prism(rng, kind):
-    """extruded non-convex cycle: vertices and outward faces (caps are non-convex polygons)"""
+    """extruded non-convex cycle (star-shaped: kind 'star' or 'L'): vertices and outward faces; the two
+    caps are fan-triangulated from a kernel point (general Polyhedron measures need convex faces)"""
     p = c19_cycle(rng, kind)
     n = len(p)
+    if kind == "star":
+        ker = np.zeros(2)
+    else:
+        q = p - p[0]
+        ker = p[0] + np.array([q[3][0] / 2.0, q[2][1] / 2.0])
     h = float(rng.uniform(0.3, 1.5))
-    v = np.vstack([np.c_[p, np.zeros(n)], np.c_[p, h * np.ones(n)]])
-    faces = [list(range(n - 1, -1, -1)), [n + i for i in range(n)]]
+    v = np.vstack([np.c_[p, np.zeros(n)], np.c_[p, h * np.ones(n)], [[ker[0], ker[1], 0.0]], [[ker[0], ker[1], h]]])
+    cb, ct = 2 * n, 2 * n + 1
+    faces = []
     for i in range(n):
         j = (i + 1) % n
-        faces.append([i, j, n + j, n + i])
+        faces.append([cb, j, i])            # bottom cap, outward = -z
+        faces.append([ct, n + i, n + j])    # top cap, outward = +z
+        faces.append([i, j, n + j, n + i])  # side
     v = v @ gen.random_rotation(rng).T
     d = gen.diameter(v)
     off = rng.normal(size=3)
@@ -505,10 +539,11 @@ def make_shape_case(rng, ctx, cls):
             faces = [[int(i) for i in f] for f in shapes().ConvexPolyhedron(v).faces]
             ctx.count("polyhedron:convex-copy")
         else:
-            kind = ["star", "L", "comb"][int(rng.integers(3))]
+            kind = ["star", "L"][int(rng.integers(2))]
             v, faces = c19_prism(rng, kind)
             ctx.count("polyhedron:prism-" + kind)
-        case = {"kind": "shape", "cls": cls, "vertices": v.tolist(), "faces": faces}
+        case = {"kind": "shape", "cls": cls, "vertices": v.tolist(), "faces": faces, "faces_np": bool(rng.integers(2))}
+        ctx.count("polyhedron:faces-as-" + ("arrays" if case["faces_np"] else "lists"))
     else:
         v, info = gen.convex_solid(rng, offset_diams=float(rng.uniform(0.5, 10)))
         ctx.count("solid:" + info["kind"])
@@ -597,10 +632,9 @@ def dim_of(cls):
 
 def check_gsd(ctx, case, s):
     from coxeter.shape_getters import from_gsd_type_shapes
-    rec = record(s)
+    rec = impl("attributes", record, s)
     cls = rec["cls"]
-    Ls = scale_of(rec)
-    spec = s.gsd_shape_spec
+    spec = impl("gsd_shape_spec", lambda: s.gsd_shape_spec)
     # emitted numbers survive str()
     for x in numbers_in(spec):
         if float(str(x)) != x:
@@ -642,7 +676,7 @@ def check_gsd(ctx, case, s):
                          [rec["radii"], rec2["radii"]])
             if cls == "Polyhedron" and rec2["faces"] != rec["faces"]:
                 ctx.fail("from_gsd_type_shapes:faces:" + cls, "GSD round trip changes the faces", case, None)
-            m1, m2 = measures(s), measures(s2)
+            m1, m2 = impl("measures", measures, s), impl("measures", measures, s2)
             for k in m1:
                 if k not in m2 or not ctx.close_enough(m1[k], m2[k], abs(m1[k]) + 1e-300):
                     ctx.fail("from_gsd_type_shapes:measures:" + cls, "GSD round trip changes " + k, case, [m1[k], m2.get(k)])
@@ -689,9 +723,9 @@ def kw_items(kwargs):
 
 def check_repr(ctx, case, s):
     import coxeter
-    rec = record(s)
+    rec = impl("attributes", record, s)
     cls = rec["cls"]
-    text = repr(s)
+    text = impl("__repr__", repr, s)
     try:
         s2 = eval(text, {"coxeter": coxeter})
     except Exception as e:
@@ -708,7 +742,7 @@ def check_repr(ctx, case, s):
             d = rec_diff(rec2, cmp_rec, normal_tol=1e-12)
             if d:
                 ctx.fail("%s.__repr__:state" % cls, "eval(repr(shape)) differs: " + d.split(" ")[0], case, d)
-            m1, m2 = measures(s), measures(s2)
+            m1, m2 = impl("measures", measures, s), impl("measures", measures, s2)
             for k in m1:
                 if k not in m2 or not ctx.close_enough(m1[k], m2[k], abs(m1[k]) + 1e-300):
                     ctx.fail("%s.__repr__:measures" % cls, "eval(repr(shape)) changes " + k, case, [m1[k], m2.get(k)])
@@ -833,10 +867,9 @@ def check_to_json(ctx, case, s, rng_ints):
             elif got[1] != want_keys:
                 ctx.fail("%s.to_json:keys" % cls, "to_json keys are not exactly the requested attributes", sub, [got[1], want_keys])
             else:
-                with warnings.catch_warnings():
-                    warnings.simplefilter("ignore")
-                    for a in want_keys:
-                        if not same_value(out[a], getattr(s, a)):
+                for a in want_keys:
+                    if True:
+                        if not same_value(out[a], impl(a, getattr, s, a)):
                             ctx.fail("%s.to_json:value" % cls, "to_json value differs from getattr for " + a, sub, a)
                             break
         elif tag == "unknown":
@@ -873,7 +906,7 @@ def hoomd_expect(s, rec):
 
 
 def check_hoomd(ctx, case, s):
-    rec = record(s)
+    rec = impl("attributes", record, s)
     cls = rec["cls"]
     if cls in ("Circle", "Ellipse"):
         has = hasattr(s, "to_hoomd")
@@ -888,7 +921,7 @@ def check_hoomd(ctx, case, s):
     Ls = scale_of(rec)
     if cls in ("Sphere", "Ellipsoid"):
         c0 = np.array(s.centroid, dtype=float)
-        out = s.to_hoomd()
+        out = impl("to_hoomd", s.to_hoomd)
         keys = list(out.keys())
         if sorted(keys) != sorted(HOOMD_KEYS[cls]):
             ctx.fail("%s.to_hoomd:keys" % cls, "keys are not the documented ones", case, keys)
@@ -934,11 +967,11 @@ def check_hoomd(ctx, case, s):
     # ---------------- vertex based classes
     v0 = rec["verts"].copy()
     core = s.polygon if cls == "ConvexSpheropolygon" else (s.polyhedron if cls == "ConvexSpheropolyhedron" else s)
-    c_impl = np.array(core.centroid, dtype=float)
+    c_impl = np.array(impl("centroid", lambda: core.centroid), dtype=float)
     size_key = "area" if cls in ("Polygon", "ConvexPolygon", "ConvexSpheropolygon") else "volume"
-    size_before = float(getattr(s, size_key))
+    size_before = float(impl(size_key, getattr, s, size_key))
     cen, centred, size_indep, inertia = hoomd_expect(s, rec)
-    out = s.to_hoomd()
+    out = impl("to_hoomd", s.to_hoomd)
     keys = list(out.keys())
     if sorted(keys) != sorted(HOOMD_KEYS[cls]):
         ctx.fail("%s.to_hoomd:keys" % cls, "keys are not the documented ones", case, keys)
@@ -1038,15 +1071,12 @@ def check_hoomd(ctx, case, s):
         ctx.disagree("c19.tohoomd", case, "model raised " + e.kind)
     # (6) returned data must not change when the shape is used afterwards (classes that centre)
     if cls != "ConvexSpheropolygon":
-        with warnings.catch_warnings():
-            warnings.simplefilter("ignore")
+        def use_again():
             core.centroid = np.asarray(core.centroid) + d * np.array([1.0, -2.0, 0.5 if cols == 3 else 0.0])
             s.to_hoomd()
-            if hasattr(s, "inertia_tensor"):
-                try:
-                    s.inertia_tensor
-                except NotImplementedError:
-                    pass
+            if cls in ("Polygon", "ConvexPolygon", "Polyhedron", "ConvexPolyhedron"):
+                s.inertia_tensor
+        impl("to_hoomd(second call)", use_again)
         for k, val in out.items():
             now = np.array(val, dtype=float) if k != "faces" else [[int(i) for i in f] for f in val]
             same = (now == snap[k]) if k == "faces" else np.array_equal(now, snap[k])
@@ -1063,11 +1093,14 @@ def eval_shape_case(ctx, case):
         ctx.fail("%s.__init__:raises" % case["cls"], "constructor raised %s on a generated valid shape" % exc_kind(e), case, repr(e)[:300])
         return
     ctx.count("class:" + case["cls"])
-    check_gsd(ctx, case, s)
-    check_repr(ctx, case, s)
     seed_ints = case.get("json_ints") or list(range(3, 40))
-    check_to_json(ctx, case, s, seed_ints)
-    check_hoomd(ctx, case, s)
+    for chk in (lambda: check_gsd(ctx, case, s), lambda: check_repr(ctx, case, s),
+                lambda: check_to_json(ctx, case, s, seed_ints), lambda: check_hoomd(ctx, case, s)):
+        try:
+            chk()
+        except ImplRaise as e:
+            ctx.fail("%s.%s:raises" % (case["cls"], e.what), "%s raised %s on a valid shape" % (e.what, type(e.exc).__name__),
+                     case, repr(e.exc)[:300])
 
 
 # --------------------------------------------------------------------------- GSD dict variants
@@ -1177,7 +1210,9 @@ def gsd_variant_cases(rng, ctx):
             cases.append({"variant": "nonconvex:" + kind + ":" + orient, "items": [("type", "Polygon"), ("vertices", v.tolist())],
                           "dim": int(rng.integers(2, 4)), "ext": {"convex": False}, "expect": "Polygon"})
     # invalid geometry (all -> ValueError as coded): bow-tie, non-positive sizes, interior point
-    bow = np.array([[0, 0, 0], [1, 1, 0], [1, 0, 0], [0, 1, 0]], dtype=float) + rng.uniform(1, 5, size=3) * [1, 1, 0]
+    # self-intersecting cycle whose points are NOT in convex position (a bow-tie of 4 hull points would be
+    # silently re-ordered into a convex quadrilateral by ConvexPolygon)
+    bow = np.array([[0, 0, 0], [2, 2, 0], [2, 0, 0], [0, 2, 0], [1, 0.4, 0]], dtype=float) + rng.uniform(1, 5, size=3) * [1, 1, 0]
     cases.append({"variant": "invalid:bow-tie", "items": [("type", "Polygon"), ("vertices", bow.tolist())], "dim": 3,
                   "ext": {"convex": False, "simple": False}})
     cases.append({"variant": "invalid:diameter<=0", "items": [("type", "Sphere"), ("diameter", -2.0 * r1[0])],
@@ -1205,7 +1240,11 @@ def eval_mapkeys(ctx, case):
     items = [(k, float(v)) for k, v in case["items"]]
     data = dict(items)
     items = list(data.items())                      # a python dict cannot hold a key twice
-    out = utils._map_dict_keys(data, key_mapping=utils._hoomd_dict_mapping)
+    try:
+        out = utils._map_dict_keys(data, key_mapping=utils._hoomd_dict_mapping)
+    except Exception as e:
+        ctx.fail("_map_dict_keys:raises", "_map_dict_keys raised " + type(e).__name__, case, repr(e)[:300])
+        return
     got = list(out.items())
     images = [SPEC_MAPPING.get(k, k) for k, _ in items]
     ctx.count("mapkeys:" + ("collision" if len(set(images)) < len(images) else "injective"))
@@ -1261,7 +1300,7 @@ def eval_case(ctx, case):
 def run(ctx):
     rng = ctx.rng
     check_mapping_constant(ctx)
-    per_class = ctx.budget(7, 90)
+    per_class = ctx.budget(10, 100)
     for cls in CLS:
         for _ in range(per_class):
             case = make_shape_case(rng, ctx, cls)
